@@ -344,8 +344,9 @@ pub fn minimise(file: &ReplayFile, rule: &str, scratch: &str, budget: usize, wal
             }
         }
     }
-    // 4. simplify values
-    for ci in 0..best.scenario.clients.len() {
+    // 4. simplify values (not for the concurrent engine, whose oracle identifies generations by
+    // their unique value lengths)
+    for ci in 0..if best.scenario.engine == "conc" { 0 } else { best.scenario.clients.len() } {
         for oi in 0..best.scenario.clients[ci].len() {
             let mut cand = best.clone();
             let changed = match &mut cand.scenario.clients[ci][oi] {
